@@ -213,6 +213,16 @@ class Gen:
     def paint_attrs(self, n, leaf):
         """Structural profile: explicit distinct opaque fill on most leaves."""
         r = self.r
+        if not self.opt["strokes"] and r.random() < (0.1 if leaf else 0.06):
+            # stroke properties without any stroke: they paint nothing and must not survive either
+            stray = {"stroke-width": fnum(self.num(1, 9, 1)), "stroke-dashoffset": fnum(self.num(1, 9, 1)), "stroke-dasharray": "4 2",
+                     "stroke-linecap": "round", "stroke-linejoin": "bevel", "stroke-miterlimit": "2", "stroke-opacity": "0.5"}
+            for k in r.sample(sorted(stray), r.randint(1, 3)):
+                if r.random() < 0.7:
+                    n.attrs[k] = stray[k]
+                else:
+                    n.attrs["style"] = (n.attrs["style"].rstrip(";") + ";" if n.attrs.get("style") else "") + f"{k}:{stray[k]}"
+            self.f["stray_stroke_property"] += 1
         if self.opt["paint"]:
             return self.cascade_attrs(n, leaf)
         if leaf:
@@ -258,7 +268,7 @@ class Gen:
                 style.append(f"{k}:{v}")
                 self.f["prop_both"] += 1
         if style:
-            n.attrs["style"] = r.choice(("; ", ";")).join(style) + r.choice(("", ";"))
+            n.attrs["style"] = (n.attrs["style"].rstrip(";") + ";" if n.attrs.get("style") else "") + r.choice(("; ", ";")).join(style) + r.choice(("", ";"))
 
     # ------------------------------------------------------------ structure
     def maybe_id(self, n, prefix, p=0.3, own_transform=False):
@@ -294,6 +304,14 @@ class Gen:
                 # "explicit value equal to the inherited one" class - see allow_equal_inherited...)
                 s.attrs["display"] = "none"
                 self.f["display_none"] += 1
+            elif o["display_none"] and self._dn and r.random() < 0.5:
+                # display is not inherited, but nothing below a display:none element is rendered,
+                # whatever the descendants say themselves
+                if r.random() < 0.5:
+                    s.attrs["display"] = r.choice(("inline", "block"))
+                else:
+                    s.attrs["style"] = (s.attrs["style"].rstrip(";") + ";" if s.attrs.get("style") else "") + "display:inline"
+                self.f["display_inline_under_none"] += 1
             return s
         if k < 0.7:
             g = Node("g")
@@ -984,7 +1002,13 @@ def gradient_doc(rng, template_before_user=False):
         # the same gradient also used by an invisible shape
         body.append(Node("rect", {"x": "1", "y": "1", "width": "5", "height": "5", "fill": f"url(#{r.choice(ids)})", "opacity": "0"}))
         g.f["grad_invisible_user"] += 1
-    root = g.document(body_nodes=body)
+    vb = "0 0 100 100"
+    if r.random() < 0.4:
+        # percentages of a userSpaceOnUse gradient refer to the viewport: width for x, height for y,
+        # the normalised diagonal for radii - only a non-square viewBox tells them apart
+        vb = r.choice(("0 0 100 60", "0 0 70 100", "0 0 120 80", "-10 -5 110 70"))
+        g.f["grad_nonsquare_viewbox"] += 1
+    root = g.document(body_nodes=body, viewbox=vb)
     return to_xml(root), g.f, root
 
 
